@@ -667,6 +667,7 @@ def analyse(rep: Report) -> None:
     rep.rule('R12.4', 'period starts accumulate the durations', floor=4)
     rep.rule('R12.6', 'Period offset and requested time are added in the same timescale', floor=1)
     rep.rule('R12.5', 'timescale conversions multiply before dividing', floor=3)
+    rep.rule('R12.7', 'the nearest-start search decides with the duration of the segment it steps over', floor=1)
     idx = Index(rep.repo)
     cg = CallGraph(idx)
     r12_1(rep, idx)
@@ -674,3 +675,6 @@ def analyse(rep: Report) -> None:
     r12_4(rep)
     r12_5(rep)
     r12_6(rep)
+    # number n is the n-th segment counting from the one whose start is nearest the Period's offset (C09's rule)
+    from .c09 import nearest_search_threshold
+    nearest_search_threshold(rep, 'R12.7')
